@@ -9,6 +9,7 @@ mod c13;
 mod c14;
 mod c16;
 mod c17;
+mod c19;
 mod core;
 mod auto;
 mod logcap;
@@ -32,6 +33,7 @@ fn main() {
         "c14" => c14::run(&args),
         "c16" => c16::run(&args),
         "c17" => c17::run(&args),
+        "c19" => c19::run(&args),
         "rxprobe" => {
             // vp rxprobe <pattern> <escaped haystack>: what the regex engines say
             let pat = args.rest.get(0).cloned().unwrap_or_default();
